@@ -46,3 +46,28 @@ PROPS["C09"] = {
     "legs": [{"fam": "scanfam", "run": "^TestC09$"}],
     "timeout": {"quick": 900, "thorough": 3000},
 }
+
+PROPS["C10"] = {
+    "level": "exploration",
+    "engine": "rapid",
+    "technique": "boundary-value enumeration over rapid-generated trees: every inode limit, size limit and cancellation point of each tree, with counting invariants on the recorded events and a differential against the unlimited run",
+    "level_text": "Generated trees; per tree the boundary values are enumerated, not sampled: inode limits {1, n-1, n, n+1}, size limits {s-1, s, s+1} for every file size s, cancellation before the scan, inside the k-th Extract for every k and at the j-th visited inode for every j. Invariants are counted on recorded events (AfterInodeVisited, Extract calls with the size they were handed and the bytes they could read, standalone / detector runs) and compared with the unlimited run of the same tree. The image part (per-file byte limit of image loading) is a separate leg over generated tar streams.",
+    "level_note": "Trusted: recording fake plugins and stats collector (harness/internal/recext), the in-memory FS. Cancellation is injected synchronously from inside a callback, so the cancellation instant is exact; asynchronous cancellation between two instructions is not explored.",
+    "rule": "rapid-generated trees (<=14 nodes, 1..2 roots, symlinks, special files) x 1..3 fake extractors x 0..2 standalone extractors x 0..2 detectors; per tree all boundary limits and all cancellation points are enumerated; one evaluation per (tree, limit or cancellation point); non-trivial = the limit is within +-1 of the quantity it bounds, or the cancellation point has work remaining after it; distinct by (scenario hash, mode, parameter). Image leg: generated layer tars with file sizes in {L-1, L, L+1, 2L} for byte limits L",
+    "assumptions": ["'the tree holds more inodes than the limit' is measured by the number of inodes the unlimited scan visits",
+                    "after cancellation inside an Extract call, further extractors may still run on the same file (the property forbids extraction on any FURTHER file)"],
+    "legs": [{"fam": "scanfam", "run": "^TestC10_scan$"}],
+    "timeout": {"quick": 900, "thorough": 3000},
+}
+
+PROPS["C20"] = {
+    "level": "exploration",
+    "engine": "rapid",
+    "technique": "rapid-generated fake detectors and inventories run through Scanner.Scan, checked against a model of index contents, finding tagging, statuses and advisory consistency",
+    "level_text": "Generated-input search through the public Scan entry point: fake extractors (filesystem and standalone, packages with and without purl, colliding names and types) and 0-4 fake detectors with generated finding lists; the index each detector receives, the emitted findings, the per-detector statuses and the overall status are compared with a direct model of the statement.",
+    "level_note": "Trusted: recording fake plugins (harness/internal/recext). A nil *Finding inside a finding list is treated as API misuse and not generated.",
+    "rule": "rapid-generated small trees x 1..3 fake filesystem extractors (1..3 packages per file, purl types generic/pypi/npm/deb, 0..100% of packages without purl, name pools so that type+name collide) x 0..2 standalone extractors x 0..4 fake detectors each returning 0..3 findings (advisory ids from a pool of 6, titles/severities that make bodies equal or unequal, ~13% without advisory or id) and possibly an error; non-trivial = >=2 detectors and >=2 findings; distinct by hash of the case JSON",
+    "assumptions": ["two advisories are 'equal in content' iff all their fields are deeply equal"],
+    "legs": [{"fam": "scanfam", "run": "^TestC20$"}],
+    "timeout": {"quick": 600, "thorough": 2400},
+}
